@@ -218,6 +218,50 @@ def dataset_case(ctx, rng, idx):
     if kind == 'hierarchical' and case.h.n_hdim == case.h.n_dim and \
             case.n_ids >= 1 and idx % 2 == 0:
         _readback(ctx, rng, case, post, ds, chains, feats)
+    if kind == 'individual':
+        _readback_individual(ctx, rng, case, post, feats)
+
+
+def _readback_individual(ctx, rng, case, post, feats):
+    """the dataset a sampling run of an individual posterior returns is
+    accepted by the pointwise evaluation and by the posterior predictive
+    model, which select the matching columns"""
+    ll = post.get_log_likelihood()
+    n_chains, n_draws = int(rng.integers(1, 4)), int(rng.integers(1, 4))
+    pts = np.asarray(post.sample_initial_parameters(
+        n_samples=n_chains * n_draws, seed=int(rng.integers(100))))
+    ch = pts.reshape(n_chains, n_draws, -1)
+    _INJECT['chains'] = ch
+    try:
+        ctrl = chi.SamplingController(post, seed=1)
+        ctrl.set_n_runs(n_chains)
+        ds = ctrl.run(n_iterations=n_draws)
+    except Exception as e:      # noqa
+        ctx.violation_exc('sampling_controller_raises', e, {'case': feats},
+                          feats)
+        return
+    finally:
+        _INJECT['chains'] = None
+    try:
+        pw = chi.compute_pointwise_loglikelihood(ll, ds)
+        vals = np.asarray(pw.values if hasattr(pw, 'values') else pw)
+    except Exception as e:      # noqa
+        ctx.violation_exc('pointwise_readback_raises', e,
+                          {'case': feats, 'dataset_dims': dict(ds.sizes)},
+                          dict(feats, readback='individual'))
+        return
+    for c in range(n_chains):
+        for d in range(n_draws):
+            ref = ll.compute_pointwise_ll(ch[c, d])
+            ctx.count('pointwise_readbacks')
+            got = vals[c, d] if vals.ndim >= 3 else None
+            if got is None or not np.allclose(got, ref, rtol=1e-12,
+                                              equal_nan=True):
+                ctx.violation('readback_selects_matching_columns',
+                              'pointwise_wrong_columns:individual',
+                              {'chain': c, 'draw': d, 'shape': vals.shape},
+                              dict(feats, readback='individual'))
+                return
 
 
 def _readback(ctx, rng, case, post, ds, chains, feats):
